@@ -36,6 +36,11 @@ theorem getElem?_set_cases {α : Type} {l : List α} {k k' : Nat} {a a' : α}
       rw [this] at h; cases h
   · rw [List.getElem?_set_ne e] at h; exact Or.inr ⟨fun x => e x.symm, h⟩
 
+theorem singleton_getElem? {α : Type} {a b : α} {j : Nat} (h : [a][j]? = some b) : j = 0 ∧ b = a := by
+  cases j with
+  | zero => simp at h; exact ⟨rfl, h.symm⟩
+  | succ j => simp at h
+
 theorem rStepLocal_ctxs {ro : Bool} {side : Bool → Side} {free : Bool → Bool} {r r' : Reader}
     {eff : LockEff} {ret : Option Ret} (h : rStepLocal ro side free r = some (r', eff, ret))
     (hg : GloOk side r) : ∀ k c', r'.ctxs[k]? = some c' → CtxStep side r k c' := by
@@ -49,7 +54,163 @@ theorem rStepLocal_ctxs {ro : Bool} {side : Bool → Side} {free : Bool → Bool
        intro k c' hk
        first
          | exact CtxStep.same hk
-         | skip)
-  done
+         | (rcases getElem?_set_cases hk with ⟨rfl, rfl, _⟩ | ⟨_, hk'⟩
+            · exact CtxStep.hit _ ‹r.ctxs[_]? = some _› rfl
+            · exact CtxStep.same hk')
+         | (rcases getElem?_set_cases hk with ⟨rfl, rfl, _⟩ | ⟨_, hk'⟩
+            · exact CtxStep.expire _ ‹r.ctxs[_]? = some _› rfl
+            · exact CtxStep.same hk')
+         | (rcases getElem?_set_cases hk with ⟨rfl, rfl, _⟩ | ⟨_, hk'⟩
+            · have hf := find_some ‹find _ _ _ _ = some _›
+              exact CtxStep.miss _ _ _ _ (by simp [*, RPc.holds]) ‹r.ctxs[_]? = some _› hf.1 hf.2.1 rfl
+            · exact CtxStep.same hk')
+         | (rcases getElem?_set_cases hk with ⟨rfl, rfl, _⟩ | ⟨_, hk'⟩
+            · have hc1 : r.ctxs[_]? = some _ := ‹r.ctxs[_]? = some _›
+              simp only [‹r.pc = _›] at hg
+              obtain ⟨hm, c0, hc0, hid⟩ := hg
+              rw [hc1] at hc0; injection hc0 with hc0; subst hc0
+              exact CtxStep.reopen _ _ _ _ (by simp [*, RPc.holds]) hc1 hm hid rfl
+            · exact CtxStep.same hk')
+         | (have hf := find_some ‹find _ _ _ _ = some _›
+            simp only at hk
+            by_cases hlt : k < r.ctxs.length
+            · rw [List.getElem?_append_left hlt] at hk; exact CtxStep.same hk
+            · rw [List.getElem?_append_right (by omega)] at hk
+              obtain ⟨_, hk1⟩ := singleton_getElem? hk
+              exact CtxStep.fresh _ _ _ _ (by simp [*, RPc.holds])
+                (List.getElem?_eq_none_iff.mpr (by omega)) hf.1 hk1))
+
+/-! ## operations on a removed channel -/
+
+/-- control states an operation about a dead id `x` can be in, and the results it may carry -/
+def DeadPcOk (r : Reader) (x : Nat) : Prop :=
+  match r.pc with
+  | .idle => True
+  | .ldR op => op.target r.ctxs = some x
+  | .peek op _ => op.target r.ctxs = some x
+  | .lk op _ => op.target r.ctxs = some x
+  | .gl op _ => op.target r.ctxs = some x
+  | .glo _ _ _ _ => False
+  | .ul _ rt => rt = .notFound ∨ rt = .bool false
+
+theorem any_id_false {l : List Chan} {x : Nat} (h : x ∉ ids l) :
+    (l.any fun c => c.id == x) = false := by
+  rw [List.any_eq_false]
+  intro c hc
+  simp only [beq_iff_eq]
+  intro e; exact h (e ▸ List.mem_map_of_mem (f := Chan.id) hc)
+
+theorem find_dead {l : List Chan} {x : Nat} {hint : Option Nat} {op : Nat} (h : x ∉ ids l) :
+    find l x hint op = none := by
+  cases hf : find l x hint op with
+  | none => rfl
+  | some p =>
+    obtain ⟨ch, idx⟩ := p
+    have := find_some hf
+    exact absurd (this.2.1 ▸ List.mem_map_of_mem (f := Chan.id) this.1) h
+
+theorem target_seal {ctxs : List Ctx} {k : Nat} {f : Bool} {x : Nat} {c : Ctx}
+    (h : ROp.target ctxs (.seal k f) = some x) (hc : ctxs[k]? = some c) : c.id = x := by
+  simp only [ROp.target, hc, Option.map_some] at h; exact Option.some.inj h
+
+theorem target_open {ctxs : List Ctx} {k : Nat} {f : Bool} {x : Nat} {c : Ctx}
+    (h : ROp.target ctxs (.open_ k f) = some x) (hc : ctxs[k]? = some c) : c.id = x := by
+  simp only [ROp.target, hc, Option.map_some] at h; exact Option.some.inj h
+
+theorem target_setup {ctxs : List Ctx} {b : Bool} {y x : Nat}
+    (h : ROp.target ctxs (.setup b y) = some x) : y = x := by
+  simp only [ROp.target] at h; exact Option.some.inj h
+
+theorem target_ex {ctxs : List Ctx} {y x : Nat}
+    (h : ROp.target ctxs (.exists_ y) = some x) : y = x := by
+  simp only [ROp.target] at h; exact Option.some.inj h
+
+/-- A step of an operation about an id `x` that is in no list the reader can look at, and
+whose cached generations are all stale: the operation cannot succeed. -/
+theorem rStepLocal_dead {ro : Bool} {side : Bool → Side} {free : Bool → Bool} {r r' : Reader}
+    {eff : LockEff} {ret : Option Ret} {x : Nat}
+    (h : rStepLocal ro side free r = some (r', eff, ret)) (hpc : DeadPcOk r x)
+    (hside : ∀ sd, free sd = true ∨ r.pc.holds = some sd → x ∉ ids (side sd).chans)
+    (hctx : ∀ (k : Nat) (c : Ctx), r.ctxs[k]? = some c → c.id = x → ∀ sd, c.gen < (side sd).gen) :
+    DeadPcOk r' x ∧ (ret = none ∨ ret = some .notFound ∨ ret = some (.bool false)) := by
+  unfold rStepLocal at h
+  unfold DeadPcOk at hpc
+  repeat' split at h
+  all_goals first
+    | contradiction
+    | (simp only [Option.some.injEq, Prod.mk.injEq] at h
+       obtain ⟨rfl, rfl, rfl⟩ := h
+       simp only [‹r.pc = _›] at hpc
+       all_goals first
+         | exact ⟨by simpa [DeadPcOk] using hpc, Or.inl rfl⟩
+         | (exfalso
+            have hx := target_seal hpc ‹r.ctxs[_]? = some _›
+            have hlt := hctx _ _ ‹r.ctxs[_]? = some _› hx
+            exact absurd ‹_ = (side _).gen› (Nat.ne_of_lt (hlt _)))
+         | (exfalso
+            have hx := target_open hpc ‹r.ctxs[_]? = some _›
+            have hlt := hctx _ _ ‹r.ctxs[_]? = some _› hx
+            exact absurd ‹_ = (side _).gen› (Nat.ne_of_lt (hlt _)))
+         | (exfalso
+            have hf := ‹find _ _ _ _ = some _›
+            have hx := target_seal hpc ‹r.ctxs[_]? = some _›
+            rw [hx, find_dead (hside _ (by simp [*, RPc.holds]))] at hf
+            cases hf)
+         | (exfalso
+            have hf := ‹find _ _ _ _ = some _›
+            have hx := target_open hpc ‹r.ctxs[_]? = some _›
+            rw [hx, find_dead (hside _ (by simp [*, RPc.holds]))] at hf
+            cases hf)
+         | (exfalso
+            have hf := ‹find _ _ _ _ = some _›
+            have hx := target_setup hpc
+            rw [hx, find_dead (hside _ (by simp [*, RPc.holds]))] at hf
+            cases hf)
+         | (refine ⟨by simp [DeadPcOk], Or.inr ?_⟩
+            rcases hpc with h | h <;> (subst h; simp))
+         | (have hx := target_ex hpc
+            subst hx
+            have hfree := Bool.of_not_eq_false ‹¬free _ = false›
+            have hn := any_id_false (hside _ (Or.inl hfree))
+            exact ⟨by simp [DeadPcOk, hn], Or.inl rfl⟩))
+
+/-- the pending cache update of `open` is well formed after every step -/
+theorem rStepLocal_glo {ro : Bool} {side : Bool → Side} {free : Bool → Bool} {r r' : Reader}
+    {eff : LockEff} {ret : Option Ret} (h : rStepLocal ro side free r = some (r', eff, ret)) :
+    GloOk side r' := by
+  unfold rStepLocal at h
+  unfold GloOk
+  repeat' split at h
+  all_goals first
+    | contradiction
+    | (simp only [Option.some.injEq, Prod.mk.injEq] at h
+       obtain ⟨rfl, rfl, rfl⟩ := h
+       first
+         | trivial
+         | (have hf := find_some ‹find _ _ _ _ = some _›
+            exact ⟨hf.1, _, ‹r.ctxs[_]? = some _›, hf.2.1⟩))
+
+theorem rStepLocal_dead0 {ro : Bool} {side : Bool → Side} {free : Bool → Bool} {r r' : Reader}
+    {eff : LockEff} {ret : Option Ret} (h : rStepLocal ro side free r = some (r', eff, ret)) :
+    r'.dead0 = r.dead0 := by
+  unfold rStepLocal at h
+  repeat' split at h
+  all_goals first
+    | contradiction
+    | (simp only [Option.some.injEq, Prod.mk.injEq] at h
+       obtain ⟨rfl, rfl, rfl⟩ := h
+       rfl)
+
+theorem rBeginLocal_spec {dead : List Nat} {r r' : Reader} {op : ROp} {ret : Option Ret}
+    (h : rBeginLocal dead r op = some (r', ret)) :
+    r'.ctxs = r.ctxs ∧ r'.dead0 = deadAtBegin dead r.ctxs op ∧
+    ((r'.pc = .ldR op ∧ ret = none) ∨ (r'.pc = .idle ∧ ret = some .keyExpired)) := by
+  unfold rBeginLocal at h
+  repeat' split at h
+  all_goals first
+    | contradiction
+    | (simp only [Option.some.injEq, Prod.mk.injEq] at h
+       obtain ⟨rfl, rfl⟩ := h
+       simp [*])
 
 end AranyaV.Shm
